@@ -37,6 +37,7 @@ typedef struct carquet_column_data {
     carquet_physical_type_t type;
     int32_t type_length;        /* For fixed-length types */
     carquet_data_ownership_t ownership;  /* OWNED or VIEW (for future zero-copy) */
+    uint8_t* byte_array_storage; /* Owned copy of BYTE_ARRAY payloads (may be NULL) */
 } carquet_column_data_t;
 
 struct carquet_row_batch {
@@ -466,6 +467,47 @@ carquet_status_t carquet_batch_reader_next(
 
             col_data->num_values = values_read;
 
+            /* Byte-array values point into the column reader's page and
+             * dictionary buffers, which are recycled by later reads and freed
+             * with the column reader, while a batch must stay readable until
+             * it is freed: give the batch its own copy of the payloads.
+             * Payloads that lie in the mapped file or caller's buffer itself
+             * live as long as the reader and are left in place. */
+            if (col_data->type == CARQUET_PHYSICAL_BYTE_ARRAY && values_read > 0) {
+                carquet_byte_array_t* arrays = (carquet_byte_array_t*)col_data->data;
+                const uint8_t* map_begin = batch_reader->reader->mmap_data;
+                const uint8_t* map_end = map_begin ? map_begin + batch_reader->reader->file_size : NULL;
+                int64_t present = values_read;
+                if (def_levels) {
+                    present = 0;
+                    for (int64_t j = 0; j < values_read; j++) {
+                        if (def_levels[j] == max_def) present++;
+                    }
+                }
+                size_t total = 0;
+                for (int64_t j = 0; j < present; j++) {
+                    bool in_map = map_begin && arrays[j].data >= map_begin && arrays[j].data < map_end;
+                    if (!in_map && arrays[j].length > 0) total += (size_t)arrays[j].length;
+                }
+                if (total > 0) {
+                    col_data->byte_array_storage = malloc(total);
+                    if (!col_data->byte_array_storage) {
+                        read_error = true;
+                        free(def_levels);
+                        continue;
+                    }
+                    size_t used = 0;
+                    for (int64_t j = 0; j < present; j++) {
+                        bool in_map = map_begin && arrays[j].data >= map_begin && arrays[j].data < map_end;
+                        if (!in_map && arrays[j].length > 0) {
+                            memcpy(col_data->byte_array_storage + used, arrays[j].data, (size_t)arrays[j].length);
+                            arrays[j].data = col_data->byte_array_storage + used;
+                            used += (size_t)arrays[j].length;
+                        }
+                    }
+                }
+            }
+
             /* Build null bitmap from definition levels */
             if (def_levels && col_data->null_bitmap) {
                 int64_t full_bytes = values_read / 8;
@@ -568,6 +610,7 @@ void carquet_row_batch_free(carquet_row_batch_t* batch) {
         }
         /* null_bitmap is always owned */
         free(batch->columns[i].null_bitmap);
+        free(batch->columns[i].byte_array_storage);
     }
 
     carquet_arena_destroy(&batch->arena);
